@@ -11,7 +11,7 @@ from . import common, rtcommon
 BASE = {
     "meta": {"imports": {"al": "gv.test/fix/alpha"}},
     "parameters": {"host": "%todo(\"host is missing\")%", "port": "%todo()%", "endpoint": "%host%", "url": "http://%host%:%port%/", "plain": 5,
-                   "m1": "%todo(\"not ready,retry later\")%", "m2": "%todo(\"see step 1 ,then  step 2\")%", "m3": "%todo(\"a,,b\")%", "m4": "x %todo(\"inside, a pattern\")% y",
+                   "m1": "%todo(\"not ready,retry later\")%", "m2": "%todo(\"see step 1 ,then  step 2\")%", "m3": "%todo(\"a,,b\")%", "m4": "x %todo(\"inside, a pattern\")% y", "m6": "%todo(\"port is not configured\", \"see docs/deploy.md\")%", "m7": "%todo(\"a\", \"b\", \"c\")% tail",
                    # the failing chunk at the beginning / at the end / repeated / next to another failing chunk
                    "addr": "%host%:%port%", "first": "%todo(\"first chunk\")% tail", "last": "head %host%", "twice": "%host%%host%", "both": "%port%%host%", "deep": "%addr%/%endpoint%",
                    # a failing chunk FOLLOWED by a reference to an intermediate parameter: nothing behind the failure may be evaluated (and cached)
@@ -26,7 +26,7 @@ BASE = {
 }
 OPS = [
     {"op": "param", "name": "host"}, {"op": "param", "name": "endpoint"}, {"op": "param", "name": "url"}, {"op": "param", "name": "port"},
-    {"op": "param", "name": "m1"}, {"op": "param", "name": "m2"}, {"op": "param", "name": "m3"}, {"op": "param", "name": "m4"},
+    {"op": "param", "name": "m1"}, {"op": "param", "name": "m2"}, {"op": "param", "name": "m3"}, {"op": "param", "name": "m4"}, {"op": "param", "name": "m6"}, {"op": "param", "name": "m7"},
     {"op": "param", "name": "addr"}, {"op": "param", "name": "first"}, {"op": "param", "name": "last"}, {"op": "param", "name": "twice"}, {"op": "param", "name": "both"}, {"op": "param", "name": "deep"},
     {"op": "param", "name": "addr2"}, {"op": "param", "name": "port2"}, {"op": "param", "name": "url2"}, {"op": "param", "name": "proto"},
     {"op": "override_param", "name": "basePort", "kind": "int", "value": 8080}, {"op": "override_param", "name": "scheme", "kind": "str", "value": "http"},
@@ -170,7 +170,10 @@ def run(tier, seed, replay):
                 v = cfg["parameters"].get(o["name"])
                 if isinstance(v, str) and v.startswith("%todo(") and ("param", o["name"]) not in overridden:
                     dist["todo_errors"] += 1
-                    msg = "parameter todo" if v == "%todo()%" else v[v.index("%todo(\"") + 7:v.rindex("\")%")].replace("\\x25", "%")
+                    # the documented message is the FIRST argument of todo(...)
+                    msg = "parameter todo" if v == "%todo()%" else v[v.index("%todo(\"") + 7:v.rindex("\")%")].replace("\\x25", "%").split("\", \"")[0]
+                    if not line.endswith(msg.replace("\"", "\\x22") + ")"):
+                        out.violation("todo-param-wrong-message", "GetParam(%s): the error does not END with the documented message %r: %s" % (o["name"], msg, line[-160:]), dict(common.slim(specs[k], obs[k]), history=allh[k]))
                     if not (line.startswith("E(") and msg in line):
                         out.violation("todo-param-no-error", "GetParam(%s) on a todo parameter returns %s instead of the documented error %r" % (o["name"], line[:200], msg), dict(common.slim(specs[k], obs[k]), history=allh[k]))
             if o["op"] == "get":
